@@ -195,32 +195,38 @@ def teardownF (rx : Frame → St → Option Exc → R) (c : Nat) (s : St) : R :=
     -- `finally: self._instance = None`
     (r2.1.setMgr c { r2.1.mgr c with inst := none }, r2.2)
 
+/-- `except BaseException as e:` in `Context.request`: reset_on_error, pytest skips excepted;
+    `raise e from None` — unless the teardown itself raises -/
+def roeStep (td : Nat → St → R) (f : Frame) (s : St) (e : Option Exc) : R :=
+  match e with
+  | some ex =>
+    if f.roe && ex.kind != .skip && s.alive f.cls then
+      let r := td f.cls s
+      (r.1, later (some ex) r.2)
+    else (s, some ex)
+  | none => (s, none)
+
+/-- the `finally:` of `InstanceManager.request` after `_current_users -= 1`: an exclusive user or
+    the last user (keep-alive off, read now) tears the instance down -/
+def finallyStep (td : Nat → St → R) (c : Nat) (excl : Bool) (s : St) (e : Option Exc) : R :=
+  if excl || (!s.keepAlive && (s.mgr c).users == 0) then
+    if s.alive c then
+      let r := td c s
+      (r.1, later e r.2)
+    else (s, e)
+  else (s, e)
+
 /-- leave one `Context.request()` context manager with in-flight exception `e`
     (`td` = `InstanceManager.teardown` on the same level) -/
 def reqExitF (td : Nat → St → R) (f : Frame) (s : St) (e : Option Exc) : R :=
-  -- `except BaseException as e:` in Context.request — reset_on_error, pytest skips excepted
-  let r0 : R :=
-    match e with
-    | some ex =>
-      if f.roe && ex.kind != .skip && s.alive f.cls then
-        let r := td f.cls s
-        (r.1, later (some ex) r.2)
-      else (s, some ex)
-    | none => (s, none)
+  let r0 := roeStep td f s e
   -- leave `with self._instance as m` in InstanceManager.request
   let r1 := objExit cfg r0.1 f.obj
   let e1 := later r0.2 r1.2
-  -- `finally:` of InstanceManager.request
+  -- the generator objects are gone; `finally:` of InstanceManager.request
   let s := { r1.1 with open_ := r1.1.open_.filter fun g => g.id != f.id }
-  let m := s.mgr f.cls
-  let s := s.setMgr f.cls { m with users := m.users - 1 }
-  let r2 : R :=
-    if f.excl || (!s.keepAlive && m.users - 1 == 0) then
-      if s.alive f.cls then
-        let r := td f.cls s
-        (r.1, later e1 r.2)
-      else (s, e1)
-    else (s, e1)
+  let s := s.setMgr f.cls { s.mgr f.cls with users := (s.mgr f.cls).users - 1 }
+  let r2 := finallyStep td f.cls f.excl s e1
   (r2.1.log (.released f.dep f.cls), r2.2)
 
 /-- enter the dependency requests of a `from_context`, in order; stops at the first failure -/
@@ -282,14 +288,9 @@ def reqEnterF (td ini : Nat → St → R) (dep : Bool) (c : Nat) (reset excl : B
     | some ex =>
       -- `finally:` of InstanceManager.request
       let s := { r2.1 with open_ := r2.1.open_.filter fun g => g.id != fr.id }
-      let m := s.mgr c
-      let s := s.setMgr c { m with users := m.users - 1 }
-      if excl || (!s.keepAlive && m.users - 1 == 0) then
-        if s.alive c then
-          let r := td c s
-          (r.1, .inr ((later (some ex) r.2).getD ex))
-        else (s, .inr ex)
-      else (s, .inr ex)
+      let s := s.setMgr c { s.mgr c with users := (s.mgr c).users - 1 }
+      let r := finallyStep td c excl s (some ex)
+      (r.1, .inr (r.2.getD ex))
     | none =>
       let s := r2.1
       let s := if s.order.contains c then s else { s with order := s.order ++ [c] }
